@@ -151,6 +151,11 @@ def run(ctx):
             ctx.disagree("whole-program model at this base", {"files": files}, {"outcome": m["outcome"], "note": m.get("note")}, r.summary())
 
 
+    from . import worlds, polyrun
+    worlds.stream_relocate(ctx, ctx.rng("c09-worlds"), 1200 if ctx.thorough else 250, impl)
+    polyrun.poly_stream(ctx, ctx.rng("c09-poly"), 1500 if ctx.thorough else 300)
+
+
 def search(ctx, broken):
     if not ctx.thorough:
         ctx.thorough = True
